@@ -74,12 +74,61 @@ BadProg(i, pos) ==
       [] pos = "inobj"     -> <<SDecl(EObj(<<Pair(EStr(<<107>>), Bad(i))>>), EObj(<<Pair(EStr(<<107>>), EInt(1))>>))>>
       [] pos = "inparamlist" -> <<SFn(W, <<EPat(<<EVar(NY), Bad(i)>>)>>, FALSE, <<>>)>>
 
+\* one binding construct that names the same variable twice (it is one scope), and `_` repeated (never an error)
+x == EVar(NX)
+y == EVar(NY)
+uu == EVar(N_us)
+F == <<102>>
+Dups == [
+  params     |-> <<SFn(F, <<x, x>>, FALSE, <<SPrint(x)>>), SPrint(EInt(1)), SExpr(ECall(EVar(F), <<EInt(1), EInt(2)>>))>>,
+  params3    |-> <<SFn(F, <<uu, y, y>>, FALSE, <<SPrint(y)>>), SPrint(EInt(1)), SExpr(ECall(EVar(F), <<EInt(0), EInt(1), EInt(2)>>))>>,
+  paramsrest |-> <<SFn(F, <<x, x>>, TRUE, <<SPrint(x)>>), SPrint(EInt(1)), SExpr(ECall(EVar(F), <<EInt(1), EInt(2)>>))>>,
+  anonparams |-> <<SDecl(EVar(F), EFunc(<<x, y, x>>, FALSE, <<SPrint(x)>>)), SPrint(EInt(1)),
+                   SExpr(ECall(EVar(F), <<EInt(1), EInt(2), EInt(3)>>))>>,
+  usparams   |-> <<SFn(F, <<uu, uu, x>>, FALSE, <<SPrint(x)>>), SExpr(ECall(EVar(F), <<EInt(1), EInt(2), EInt(3)>>))>>,
+  paramlist  |-> <<SFn(F, <<x, EPat(<<y, x>>)>>, FALSE, <<SPrint(x)>>), SPrint(EInt(1)),
+                   SExpr(ECall(EVar(F), <<EInt(1), EList(<<EInt(2), EInt(3)>>)>>))>>,
+  paramobj   |-> <<SFn(F, <<x, EObj(<<Short(x)>>)>>, FALSE, <<SPrint(x)>>), SPrint(EInt(1)),
+                   SExpr(ECall(EVar(F), <<EInt(1), EObj(<<Pair(EStr(NX), EInt(2))>>)>>))>>,
+  parambody  |-> <<SFn(F, <<x>>, FALSE, <<SDecl(x, EInt(5)), SPrint(x)>>), SPrint(EInt(1)), SExpr(ECall(EVar(F), <<EInt(1)>>))>>,
+  parambodyblock |-> <<SFn(F, <<x>>, FALSE, <<SBlock(<<SDecl(x, EInt(5)), SPrint(x)>>), SPrint(x)>>),
+                       SExpr(ECall(EVar(F), <<EInt(1)>>))>>,
+  listdecl   |-> <<SPrint(EInt(1)), SDecl(EPat(<<x, y, x>>), EList(<<EInt(1), EInt(2), EInt(3)>>))>>,
+  listassign |-> <<SDecl(x, EInt(0)), SAssign(EPat(<<x, x>>), EList(<<EInt(1), EInt(2)>>)), SPrint(x)>>,
+  objdecl    |-> <<SPrint(EInt(1)), SDecl(EObj(<<Short(x), Pair(EStr(NY), x)>>), EObj(<<Pair(EStr(NX), EInt(1)), Pair(EStr(NY), EInt(2))>>))>>,
+  fortarget  |-> <<SFor(EPat(<<x, x>>), EList(<<EInt(7)>>), <<SPrint(x)>>)>>,
+  forbody    |-> <<SFor(EPat(<<uu, x>>), EList(<<EInt(7), EInt(8)>>), <<SDecl(x, EInt(1)), SPrint(x)>>)>>,
+  forbodyy   |-> <<SFor(EPat(<<uu, x>>), EList(<<EInt(7), EInt(8)>>), <<SDecl(y, x), SPrint(y)>>)>>,
+  fnname     |-> <<SFn(F, <<EVar(F)>>, FALSE, <<SPrint(EVar(F))>>), SExpr(ECall(EVar(F), <<EInt(1)>>)), SFn(F, <<>>, FALSE, <<>>)>>,
+  restsame   |-> <<SPrint(EInt(1)), SDecl(EPatRest(<<x, x>>), EList(<<EInt(1), EInt(2)>>))>>,
+  objrestsame |-> <<SPrint(EInt(1)), SDecl(EObj(<<Short(x), PCollect(x)>>), EObj(<<Pair(EStr(NX), EInt(1))>>))>>
+]
+\* a name declared in an enclosing scope *after* a function was created there is visible to the function when it
+\* is called later; one declared after the call is not; every enclosing scope counts, also one that was empty
+LateWraps == {"block", "if", "for", "call", "else"}
+LateWrap(w, body) ==
+    CASE w = "block" -> <<SBlock(body)>>
+      [] w = "if"    -> <<SIf(EBool(TRUE), body)>>
+      [] w = "else"  -> <<SIfOf(<<Branch(EBool(FALSE), <<SPrint(EInt(0))>>)>>, Else(body))>>
+      [] w = "for"   -> <<SFor(uu, EList(<<EInt(1)>>), body)>>
+      [] w = "call"  -> <<SFn(W, <<>>, FALSE, body), SExpr(ECall(EVar(W), <<>>))>>
+G == <<103>>
+LateProg(w1, w2, variant) ==
+    <<SDecl(EVar(G), ENull)>>
+    \o (IF variant = "shadow" THEN <<SDecl(x, EInt(1))>> ELSE <<>>)
+    \o LateWrap(w1, LateWrap(w2, <<SAssign(EVar(G), EFunc(<<>>, FALSE, <<SReturn(x)>>))>>)
+                     \o (IF variant = "after" THEN <<SPrint(ECall(EVar(G), <<>>))>> ELSE <<>>)
+                     \o <<SDecl(x, EInt(2)), SPrint(ECall(EVar(G), <<>>))>>)
+    \o <<SPrint(ECall(EVar(G), <<>>))>>
+
 \* parameter tuples <<family, events, split, wrapper>>
 C20Params ==
     { <<"flat", s, 0, "-">> : s \in UNION {Seqs(n) : n \in 1 .. SeqLen} }
     \cup (IF LongLen > 0 THEN { <<"flat", s, 0, "-">> : s \in CoreSeqs(LongLen) } ELSE {})
     \cup { <<"nest", s, 1, w>> : s \in UNION {Seqs(n) : n \in 2 .. (SeqLen - 1)}, w \in Wrappers }
     \cup { <<"bad", <<i>>, 0, pos>> : i \in 1 .. 9, pos \in BadPos }
+    \cup { <<"dup", <<>>, 0, d>> : d \in DOMAIN Dups }
+    \cup { <<"late", <<w1, w2>>, 0, v>> : w1 \in LateWraps, w2 \in LateWraps, v \in {"plain", "shadow", "after"} }
 
 C20ProgOf(p) ==
     CASE p[1] = "flat" -> Flat(p[2], 0) \o <<SPrint(EInt(99))>>
@@ -87,6 +136,8 @@ C20ProgOf(p) ==
                           \o Wrap(p[4], Flat(SubSeq(p[2], p[3] + 1, Len(p[2])), p[3]))
                           \o <<SPrint(EVar(NX))>>
       [] p[1] = "bad"  -> BadProg(p[2][1], p[4])
+      [] p[1] = "dup"  -> Dups[p[4]]
+      [] p[1] = "late" -> LateProg(p[2][1], p[2][2], p[4])
 
 -----------------------------------------------------------------------------
 (* The declarative oracle for flat sequences *)
@@ -118,5 +169,11 @@ BadIsError ==
     (status.k # "running" /\ pi[1] = "bad") =>
         status.k = "failed" /\ status.diag.kind \in {"InvalidBindTarget", "OpOnListDestructure"}
 
-C20Laws == FlatOracle /\ BadIsError
+\* naming one variable twice in one binding construct is a reported error, whatever the construct
+DupIsError ==
+    (status.k # "running" /\ pi[1] = "dup" /\ pi[4] \in {"params", "params3", "paramsrest", "anonparams", "paramlist",
+                                                         "paramobj", "parambody", "listdecl", "objdecl", "fortarget",
+                                                         "forbody", "restsame", "objrestsame"}) =>
+        status.k = "failed" /\ status.diag.kind \in {"AlreadyInScope", "DupParamName", "AlreadyInBinding"}
+C20Laws == FlatOracle /\ BadIsError /\ DupIsError
 =============================================================================
